@@ -74,5 +74,11 @@ TFlush  ==
        ELSE /\ PrintT(<<"REJECT", Cur.t, l, Kind(Cur.dps[FirstBad(Cur.dps, dp')], dp')>>)
             /\ skip' = TRUE
 
-TNext == TReset \/ TSkip \/ TUpdate \/ TRemove \/ TIface \/ TFlush
+\* the real manager panicked: never an accepted observation
+TPanic ==
+    /\ ~skip /\ IsEvent("panic")
+    /\ PrintT(<<"REJECT", Cur.t, l, "panic">>)
+    /\ skip' = TRUE /\ UNCHANGED <<eps, dp, cfg>>
+
+TNext == TReset \/ TSkip \/ TUpdate \/ TRemove \/ TIface \/ TFlush \/ TPanic
 =============================================================================
